@@ -13,21 +13,39 @@ use crate::engine::{Ctx, Tier, Verdict};
 enum Mode<'a> {
     Run,
     Replay { group: &'a str, case: &'a Value },
+    /// Generate one case of `group` from fuzzer bytes (used as the random
+    /// stream of the group's generator) and check it.
+    Fuzz { group: &'a str, data: &'a [u8], decode_only: bool },
+}
+
+/// What a fuzz iteration produced.
+pub struct FuzzOutcome {
+    pub case: Value,
+    pub verdict: Option<Verdict>,
 }
 
 pub struct Groups<'a> {
     pub ctx: &'a Ctx,
     mode: Mode<'a>,
     replay_verdict: Option<Verdict>,
+    fuzz_outcome: Option<FuzzOutcome>,
 }
 
 impl<'a> Groups<'a> {
     pub fn run(ctx: &'a Ctx) -> Self {
-        Self { ctx, mode: Mode::Run, replay_verdict: None }
+        Self { ctx, mode: Mode::Run, replay_verdict: None, fuzz_outcome: None }
     }
 
     pub fn replay(ctx: &'a Ctx, group: &'a str, case: &'a Value) -> Self {
-        Self { ctx, mode: Mode::Replay { group, case }, replay_verdict: None }
+        Self { ctx, mode: Mode::Replay { group, case }, replay_verdict: None, fuzz_outcome: None }
+    }
+
+    pub fn fuzz(ctx: &'a Ctx, group: &'a str, data: &'a [u8], decode_only: bool) -> Self {
+        Self { ctx, mode: Mode::Fuzz { group, data, decode_only }, replay_verdict: None, fuzz_outcome: None }
+    }
+
+    pub fn take_fuzz_outcome(&mut self) -> Option<FuzzOutcome> {
+        self.fuzz_outcome.take()
     }
 
     pub fn take_replay_verdict(&mut self) -> Option<Verdict> {
@@ -48,7 +66,7 @@ impl<'a> Groups<'a> {
         name: &str,
         quick: u64,
         thorough: u64,
-        strategy: S,
+        strategy: impl FnOnce() -> S,
         check: impl Fn(&C) -> Verdict,
     ) where
         C: Debug + Serialize + DeserializeOwned + Clone,
@@ -57,11 +75,63 @@ impl<'a> Groups<'a> {
         match &self.mode {
             Mode::Run => {
                 let cases = self.ctx.tier.pick(quick, thorough);
-                self.ctx.run_prop(name, cases, strategy, check);
+                self.ctx.run_prop(name, cases, strategy(), check);
             }
             Mode::Replay { group, case } => {
                 if *group == name {
                     self.replay_verdict = Some(self.ctx.replay_case::<C>(name, case, check));
+                }
+            }
+            Mode::Fuzz { group, data, decode_only } => {
+                if *group == name {
+                    use proptest::{
+                        strategy::ValueTree,
+                        test_runner::{Config, RngAlgorithm, TestRng, TestRunner},
+                    };
+                    // vendor/proptest: the pass-through source never runs dry and
+                    // forks into ChaCha generators seeded from the stream.
+                    let rng = TestRng::from_seed(RngAlgorithm::PassThrough, data);
+                    // `Config::default()` reads the environment; do that once.
+                    thread_local!(static CONFIG: Config = Config { failure_persistence: None, ..Config::default() });
+                    let mut runner = TestRunner::new_with_rng(CONFIG.with(|c| c.clone()), rng);
+                    if let Ok(mut tree) = strategy().new_tree(&mut runner) {
+                        let case = tree.current();
+                        let mut json = serde_json::to_value(&case).unwrap_or(Value::Null);
+                        let run = |c: &C| crate::engine::catch(|| check(c)).unwrap_or_else(|e| Verdict::Fail { signature: "harness-panic".into(), message: e });
+                        let mut verdict = if *decode_only { None } else { Some(run(&case)) };
+                        // Shrink an unknown violation with proptest's own
+                        // simplify / complicate walk, keeping the signature.
+                        if let Some(Verdict::Fail { signature, .. }) = &verdict {
+                            if self.ctx.is_known(signature).is_none() {
+                                let want = signature.clone();
+                                let mut steps = 0;
+                                if tree.simplify() {
+                                    loop {
+                                        steps += 1;
+                                        if steps > 4000 {
+                                            break;
+                                        }
+                                        let c = tree.current();
+                                        match run(&c) {
+                                            Verdict::Fail { signature, message } if signature == want => {
+                                                json = serde_json::to_value(&c).unwrap_or(Value::Null);
+                                                verdict = Some(Verdict::Fail { signature, message });
+                                                if !tree.simplify() {
+                                                    break;
+                                                }
+                                            }
+                                            _ => {
+                                                if !tree.complicate() {
+                                                    break;
+                                                }
+                                            }
+                                        }
+                                    }
+                                }
+                            }
+                        }
+                        self.fuzz_outcome = Some(FuzzOutcome { case: json, verdict });
+                    }
                 }
             }
         }
@@ -97,6 +167,7 @@ impl<'a> Groups<'a> {
                     self.replay_verdict = Some(self.ctx.replay_case::<C>(name, case, check));
                 }
             }
+            Mode::Fuzz { .. } => {}
         }
     }
 }
